@@ -11,7 +11,9 @@ CUSTOM_KEYS = [b"", b"a", b"\x80", b"foo", b"zz", b"ip5", b"tcp7", b"udp", b"eth
                b"k" * 55, b"k" * 56, b"ie", b"ic", b"secp256k0", b"toy", b"t",
                # names that merely begin with / extend a reserved name, or differ from one in case
                b"udp4-name", b"tcp-alt", b"udp0", b"tcpx", b"ip4", b"ip66", b"idx", b"id2", b"i", b"secp256k1x", b"ed25519x", b"clientx",
-               b"ID", b"Ip", b"TCP", b"Udp", b"Client"]
+               b"ID", b"Ip", b"TCP", b"Udp", b"Client",
+               # popular, not reserved
+               b"quic", b"quic6", b"syncnets", b"snap", b"opstack"]
 
 
 def rbytes(rng, n):
@@ -180,6 +182,10 @@ def structural_mutants(rng, oracle, rec):
     if getattr(key, "pub_unc", None):
         for lab, enc in (("pubkey_raw_xy", key.pub_unc[1:]), ("pubkey_uncompressed_signed", key.pub_unc), ("pubkey_hybrid", bytes([6 + (key.pub_unc[-1] & 1)]) + key.pub_unc[1:])):
             nd = dict(d); nd[key.entry] = rlp_str(enc); out.append((lab, mk(sorted(nd.items()))))
+        # the uncompressed form with a y that is NOT on the curve but has the right parity (compressing first would hide it)
+        y = bytearray(key.pub_unc[33:])
+        y[rng.randrange(0, 31)] ^= 1 << rng.randrange(8)
+        nd = dict(d); nd[key.entry] = rlp_str(key.pub_unc[:33] + bytes(y)); out.append(("pubkey_uncompressed_offcurve_same_parity", mk(sorted(nd.items()))))
     nd = dict(d); nd[b"id"] = rlp_str(rng.choice([b"v5", b"v", b"v4 ", b"", b"V4"])); out.append(("other_id", mk(sorted(nd.items()))))
     nd = dict(d); nd[b"id"] = rlp_list(rlp_str(b"v4")); out.append(("id_list", mk(sorted(nd.items()))))
     nd = dict(d); nd.pop(key.entry); out.append(("no_pubkey", mk(sorted(nd.items()))))
@@ -301,13 +307,19 @@ def wire_malformed_signed_canonical(rng, oracle, rec):
 
     if len(pl) >= 2:
         i = rng.randrange(len(pl) - 1)
-        sw = list(pl); sw[i], sw[i + 1] = sw[i + 1], sw[i]
-        out.append(("wire_unsorted_sig_canonical", wire(sw)))
+        for j in (range(len(pl) - 1) if len(pl) <= 6 else [i]):
+            sw = list(pl); sw[j], sw[j + 1] = sw[j + 1], sw[j]
+            out.append(("wire_unsorted_sig_canonical", wire(sw)))
         out.append(("wire_duplicate_sig_canonical", wire(pl[:i + 1] + [pl[i]] + pl[i + 1:])))
         out.append(("wire_duplicate_first_sig_canonical", wire([pl[0]] + pl)))
     # non-canonical integers / lengths on the wire, honest signature
     if seq > 0:
         out.append(("wire_seq_leading_zero_sig_canonical", wire(pl, seq_raw=rlp_str(b"\x00" + be(seq)))))
+    # an over-wide sequence number whose low 64 bits are the signed one (a decoder that folds the bytes into a
+    # u64 without bounding the width accepts it as the signed record)
+    for width in (9, 12, 16, 33, 64):
+        hi = bytes([rng.randrange(1, 256)]) + bytes(width - 9) if width > 9 else bytes([rng.randrange(1, 256)])
+        out.append(("wire_seq_overwide%d_low64_signed" % width, wire(pl, seq_raw=rlp_str(hi + seq.to_bytes(8, "big")))))
     for k in (b"tcp", b"udp", b"tcp6", b"udp6"):
         if k in d:
             port = int.from_bytes(d[k][1:] if d[k][0] >= 0x80 else d[k], "big") if d[k] != b"\x80" else 0
@@ -340,6 +352,102 @@ def honest_with_duplicates(rng, oracle, key, seq, base):
             sg = key.sign(oracle, content)
             body = rlp_uint(seq) + b"".join(rlp_str(k) + v for k, v in dup)
             out.append(("duplicate_key_%s_signed_over_%s" % (dk.hex() or "empty", lab), rlp_list(rlp_str(sg) + body)))
+    return out
+
+
+# entry names seen in records in the wild (none of them reserved by EIP-778: any single RLP item is a legal value)
+WELLKNOWN_KEYS = [b"quic", b"quic6", b"eth", b"eth2", b"attnets", b"syncnets", b"snap", b"les", b"opstack", b"nfd", b"csc", b"cgc",
+                  b"client", b"v", b"c", b"mp", b"ws", b"wss", b"p2p", b"rpc", b"dns", b"dns4", b"dns6", b"port", b"tcp4", b"udp4", b"ip4"]
+ANY_ITEM_VALUES = [b"\x80", b"\x83\x01\x00\x00", b"\x82\x00\x50", b"\xc0", b"\xc2\x01\x02", b"\x91" + b"\x07" * 17, b"\x85hello", b"\x05",
+                   b"\x84\x01\x02\x03\x04", b"\x90" + b"\x09" * 16, b"\xc5\x84\x01\x02\x03\x04", b"\x81\xff", b"\x88" + b"\xff" * 8]
+
+
+def wellknown_keys_any_value(rng, oracle, key, seq, base, per_key=3):
+    """valid records: an entry name that is popular but NOT reserved, holding values that would be ill-typed for a
+    port / an address (a library that starts validating such a name rejects well-formed records)"""
+    out = []
+    for wk in WELLKNOWN_KEYS:
+        for v in rng.sample(ANY_ITEM_VALUES, per_key):
+            pairs = dict(base)
+            pairs[wk] = v
+            out.append(("wellknown_%s_any_item" % wk.decode(), record_bytes(oracle, key, seq, sorted(pairs.items()))[0]))
+    return out
+
+
+# ed25519 secrets whose 32-byte public key begins with 02/03 and is, with one more byte, a valid compressed secp256k1
+# point (found by grinding ~230 keys once): a comparison of two public-key encodings that stops at the shorter one
+# takes the 33-byte point for the 32-byte key
+ED_PREFIX_OF_SECP = [("0def64a4cff06ad79fd016c35054858903e44795d0cb19f7c949a2bb3a432ddf", "039c4b9432174068260e8d689faed7bfa327062c91e067cc99b78f832ee25313", 0),
+                     ("758993eaef69555d670bd43084018b2be7f300c270e3cd1885f857401be6aec0", "02b3bbf71b67e512a22273de6bd49bcfd4186b62c0795981395d42ed50b14f65", 1)]
+
+
+def boundary_records(rng, oracle, kt, keys=None):
+    """valid records whose keys / values sit on RLP framing boundaries: key lengths 0, 1 (< 0x80 and >= 0x80), 55, 56,
+    57; string values of 0, 1, 55, 56 bytes; lists of 55 / 56 payload bytes; the same record for every shape"""
+    key = (keys or secrets(rng, oracle, kt, 1))[0]
+    siglen = 16 if key.scheme == "toy" else 64
+    out = []
+    shapes = [(b"", rlp_str(b"x")), (b"\x05", rlp_str(b"")), (b"\x80", rlp_str(b"\x7f")), (b"\xff", rlp_str(b"\x80")),
+              (b"k" * 55, rlp_str(b"v")), (b"k" * 56, rlp_str(b"v")), (b"k" * 57, rlp_str(b"v")), (b"m" * 100, rlp_str(b"")),
+              (b"v55", rlp_str(b"v" * 55)), (b"v56", rlp_str(b"v" * 56)), (b"l55", rlp_list(rlp_str(b"w" * 53))), (b"l56", rlp_list(rlp_str(b"w" * 54))),
+              (b"p" * 17 + b"1x", rlp_str(b"a")), (b"p" * 17 + b"2", rlp_str(b"b"))]
+    for i, (k, v) in enumerate(shapes):
+        pairs = {b"id": rlp_str(b"v4"), key.entry: rlp_str(key.pub), k: v}
+        if i % 3 == 0:
+            pairs[b"ip"] = rlp_str(rbytes(rng, 4))
+        seq = rng.choice(SEQ_POOL)
+        if enc_len(seq, pairs, siglen) > 300:
+            continue
+        pl = sorted(pairs.items())
+        b, content, sig = record_bytes(oracle, key, seq, pl)
+        out.append({"bytes": b, "key": key, "seq": seq, "pairs": pl, "content": content, "sig": sig})
+    # two long keys sharing a 16-byte prefix, in both orders of length
+    pairs = {b"id": rlp_str(b"v4"), key.entry: rlp_str(key.pub), b"q" * 16 + b"9": rlp_str(b"a"), b"q" * 16 + b"10": rlp_str(b"b")}
+    pl = sorted(pairs.items())
+    b, content, sig = record_bytes(oracle, key, 7, pl)
+    out.append({"bytes": b, "key": key, "seq": 7, "pairs": pl, "content": content, "sig": sig})
+    return out
+
+
+def many_pairs_records(rng, oracle, key):
+    """(label, bytes): records made of as many 2-byte pairs as fit (one-byte keys, one-byte values), around every count
+    from 60 to the maximum — valid; the same with an UNSIGNED pair, or bytes that are no RLP item, appended inside the
+    list after the last signed pair (the outer header re-framed) — must be rejected"""
+    out = []
+    siglen = 16 if key.scheme == "toy" else 64
+    small = [(b"", b"\x01")] + [(bytes([i]), bytes([rng.randrange(1, 0x80)])) for i in range(0x00, 0x68)]   # all sort before "id"
+    for n in (8, 40, 60, 70, 73, 74, 75, 76, 77, 80, 85, 90, 95, 100):
+        pairs = dict(small[:max(0, n - 2)])
+        pairs[b"id"] = rlp_str(b"v4")
+        pairs[key.entry] = rlp_str(key.pub)
+        if enc_len(3, pairs, siglen) > 300:
+            continue
+        pl = sorted(pairs.items())
+        good, content, sig = record_bytes(oracle, key, 3, pl)
+        out.append(("valid_%d_pairs" % len(pl), good))
+        body = rlp_uint(3) + b"".join(rlp_str(k) + v for k, v in pl)
+        for lab, extra in (("unsigned_pair_appended", rlp_str(b"t") + b"\x2a"), ("garbage_appended_inside_list", b"\xbf\xff\xff"),
+                           ("unsigned_key_without_value_appended", rlp_str(b"zz"))):
+            payload = rlp_str(sig) + body + extra
+            if len(rlp_list(payload)) <= 300:
+                out.append(("%d_pairs_%s" % (len(pl), lab), rlp_list(payload)))
+    return out
+
+
+def mislabelled_key_entries(rng, oracle):
+    """records whose only key entry sits under the OTHER scheme's name (signed by that key over exactly that content),
+    and a secp256k1 entry carrying its string header twice: no key type accepts any of them"""
+    import enrlib
+    out = []
+    edk = enrlib.Key(oracle, "ed", rbytes(rng, 32))
+    sk = enrlib.Key(oracle, "k256", rbytes(rng, 32))
+    while sk.pub is None:
+        sk = enrlib.Key(oracle, "k256", rbytes(rng, 32))
+    for seq in (1, 300):
+        out.append(("ed25519_key_under_secp256k1_name", record_bytes(oracle, edk, seq, [(b"id", rlp_str(b"v4")), (b"secp256k1", rlp_str(edk.pub))])[0]))
+        out.append(("secp256k1_key_under_ed25519_name", record_bytes(oracle, sk, seq, [(b"id", rlp_str(b"v4")), (b"ed25519", rlp_str(sk.pub))])[0]))
+        out.append(("secp256k1_entry_double_framed", record_bytes(oracle, sk, seq, [(b"id", rlp_str(b"v4")), (b"secp256k1", rlp_str(rlp_str(sk.pub)))])[0]))
+        out.append(("ed25519_entry_double_framed", record_bytes(oracle, edk, seq, [(b"id", rlp_str(b"v4")), (b"ed25519", rlp_str(rlp_str(edk.pub)))])[0]))
     return out
 
 
